@@ -106,6 +106,16 @@ CLAIMED = {
          'a full Lean BIP32/BIP39 and by driving the library with and without clean_derivation.',
          NOTE_COMMON + 'third-party hdwallet derivation itself: correspondence only (partial); HMAC-SHA512/PBKDF2 parameters.',
          'Lean 4 proof (wrapper over parameter model) + differential correspondence against a Lean BIP32/BIP39', '6/C19'),
+ 'C13': ('Kernel-checked theorems on two models. Heap model (Python object identity as references): every object reachable from a copy made by '
+         'Transaction/TxInput/TxOutput/TxWitnessInput/Script.copy, and from an input built with the defaulted script_sig, is freshly allocated and '
+         'denotes the same value; a write to an object not reachable from a transaction does not change it (frame); mutating anything reachable from '
+         'a copy never changes the original and vice versa; get_transaction_digest (modelled with its copy-and-mutate steps) leaves every '
+         'pre-existing object unchanged and computes exactly the pure digest of C03. Pure model: the three digests depend only on the '
+         'transaction skeleton, hence any permutation of sign-and-attach operations on distinct slots gives the same final transaction (any number '
+         'of inputs). The heap model is tied to the code after EVERY operation of random object histories (serialisations + sharing partition by '
+         'id()); order independence additionally by all permutations on real signing.',
+         NOTE_COMMON + 'Python object identity modelled by heap indices; signers deterministic (observed).',
+         'Lean 4 proof (heap model + pure model) + differential correspondence on operation histories', '6/C13'),
 }
 REASONS_PENDING = 'check under construction in this session (DESIGN.md section 9 build order); will be claimed once its Lean theorems are proved and its correspondence run exists'
 
